@@ -622,6 +622,10 @@ def run(ctx: Ctx):
     ctx.notes.append("prim with a start that is not a node of the graph (returns OPTIMAL [] on a 1-node graph, INFEASIBLE otherwise) is "
                      "outside the property; such calls are only compared with the model")
     ctx.notes.append("iterations / evaluations counters are modelled but not compared (the property does not mention them)")
+    ctx.notes.append("theorems are about the Gallina model over Z with nat node ids; hashable labels are mapped injectively to nat by "
+                     "the harness (the code only hashes / compares labels for equality; heap ties are broken by the unique counter)")
+    ctx.notes.append("prim theorems assume distinct dict keys (always true of a Python dict) and start in the node set; minimality "
+                     "and agreement with kruskal additionally assume a symmetric adjacency dict (undirected graph)")
 
     bad_k = ctx.coq_check("kruskal", IMPORTS, K_TYPE, K_CORR, k_cases)
     bad_p = ctx.coq_check("prim", IMPORTS, P_TYPE, P_CORR, p_cases)
